@@ -309,8 +309,27 @@ func c11LimitCase(t *testing.T, f *c11Fix, tr *tracer, r *rng, ci int) {
 		debt := r.pickI(1000000, 1000000, 3000000, 500000, 2000001)
 		s := c11AucSpec{debtAsset: []uint64{f.harbor, f.cmst}[r.intn(2)], debt: debt, fee: r.pickI(0, 0, 0, 5, 120000)}
 		s.collateral = []int64{2 * debt, 2 * debt, debt, debt / 2, 10 * debt}[r.intn(5)]
-		s.resrv = r.pickI(0, 0, 5000000, 1000)
+		s.resrv = r.pickI(0, 0, 10000000, 1000)
 		aucs = append(aucs, s)
+	}
+	// an auction whose collateral can run short closes on the app reserve: either there is no reserve
+	// record (the closure fails and is rolled back) or the reserve covers the shortfall.  A reserve
+	// that exists but is too small is C10's finding C10-F2 (the close pays the full target out of
+	// the module's other coins) and is not generated here.
+	for _, asset := range []uint64{f.harbor, f.cmst} {
+		short, total, first := false, int64(0), -1
+		for i, s := range aucs {
+			if s.debtAsset == asset {
+				if first < 0 {
+					first = i
+				}
+				short = short || s.collateral < 2*(s.debt+s.fee)
+				total += s.resrv
+			}
+		}
+		if short && total > 0 && total < 10000000 {
+			aucs[first].resrv = 10000000
+		}
 	}
 	l := c11NewLim(t, f, tr, ci, nb, closing, withdrawal, funding, base, aucs)
 	ids := []uint64{f.harbor, f.cmst, f.oth}
